@@ -5,7 +5,7 @@ from hivemon.checks.common import simple_main, trace_case
 from hivemon.gen.scenario import LAT0, LON0
 
 
-def queue_spec(seed):
+def queue_spec(seed, long_wait=False):
     """1-2 slow plugs, 6-12 nearly empty vehicles at staggered distances (same-step arrivals included)."""
     rnd = random.Random(seed * 7 + 1)
     dt = rnd.choice([30, 60, 61, 120])
@@ -16,7 +16,7 @@ def queue_spec(seed):
     for i in range(nv):
         r = rnd.choice([0.0, 0.001, 0.002, 0.004, rnd.uniform(0.0, 0.03), rnd.uniform(0.0, 0.03), rnd.uniform(0.0, 0.03)])
         vehicles.append({"id": f"v{i:02d}", "lat": round(sl + rnd.choice([-1, 1]) * r, 6), "lon": round(so + rnd.choice([-1, 1]) * r, 6), "mech": "tiny", "soc": round(rnd.uniform(0.15, 0.3), 4)})
-    full = seed % 4 == 2
+    full = seed % 4 == 2 and not long_wait
     if full:
         # a few vehicles that are full and stay full for a while (low idle drain below): a depot-style controller sends them
         # to the station anyway, so the queue holds vehicles that have nothing to charge when their turn comes
@@ -31,7 +31,7 @@ def queue_spec(seed):
     steps = rnd.randint(160, 260)
     bases = [{"id": "b1", "lat": LAT0, "lon": LON0, "station": "bs1", "stalls": 1}]
     schedules = None
-    if seed % 5 == 4:
+    if seed % 5 == 4 and not long_wait:
         # two human drivers who are off shift for the whole run and cannot charge at home: the built-in driver logic sends
         # them to the station and repeats that instruction every step while they wait
         schedules = [{"id": "never", "start": 0, "end": 0}]
@@ -39,7 +39,7 @@ def queue_spec(seed):
             v["schedule"] = "never"
             v["home_base"] = f"hb{j}"
             bases.append({"id": f"hb{j}", "lat": round(LAT0 + 0.01 + 0.001 * j, 6), "lon": LON0, "station": None, "stalls": 1})
-    if seed % 5 == 2:
+    if seed % 5 == 2 and not long_wait:
         # a depot plug closed to the built-in search for drivers on shift (on_shift_access false), used by an operator who
         # sends vehicles there himself: two human drivers who are on shift all day wait in that queue with the others
         stations[0]["plugs"][0]["on_shift"] = False
@@ -48,18 +48,17 @@ def queue_spec(seed):
             v["schedule"] = "always"
             v["home_base"] = f"hb{j}"
             bases.append({"id": f"hb{j}", "lat": round(LAT0 + 0.01 + 0.001 * j, 6), "lon": LON0, "station": None, "stalls": 1})
-    if seed % 6 == 3:
+    if seed % 6 == 3 and not long_wait:
         # two kinds of plug, one of each, both open to everybody: two queues at one station, and a controller that now and then
         # tells a waiting vehicle to try the other kind
         stations[0]["plugs"] = [{"charger": "DCFC", "count": 1}, {"charger": "LEVEL_2", "count": 1}]
-    long_wait = seed % 6 == 5 and not full and schedules is None
     if long_wait:
-        # a depot plug that takes hours per vehicle, half-hour or hour steps, a run of three days: vehicles wait for more than a day
+        # a depot plug that takes hours per vehicle, half-hour or hour steps, a run of four days: vehicles wait for more than a day
         dt = rnd.choice([1800, 3600])
-        steps = 72 * 3600 // dt
+        steps = 96 * 3600 // dt
         stations[0]["plugs"] = [{"charger": "LEVEL_1", "count": 1, "on_shift": False}]
         for v in vehicles:
-            v["soc"] = round(rnd.uniform(0.3, 0.6), 3)
+            v["soc"] = round(rnd.uniform(0.15, 0.4), 3)
     fleets = None
     if seed % 5 == 1:
         # a fleets file in which every other vehicle belongs to a fleet, the station to none (open to all): members and
@@ -84,7 +83,7 @@ def queue_spec(seed):
                 "mechatronics_type": "bev",
                 "powercurve_file": "normalized.yaml",
                 "powertrain_file": "normalized-electric.yaml",
-                "battery_capacity_kwh": rnd.choice([4, 6, 10]) if not long_wait else rnd.choice([30, 45]),
+                "battery_capacity_kwh": rnd.choice([4, 6, 10]) if not long_wait else rnd.choice([45, 60]),
                 "nominal_max_charge_kw": 50,
                 "charge_taper_cutoff_kw": 10,
                 "nominal_watt_hour_per_mile": 225,
@@ -103,8 +102,8 @@ def build_cases(tier, seed):
     cases = []
     for i in range(n):
         s = seed * 100000 + 18000 + i
-        spec, steps = queue_spec(s)
-        ctrl = {"stack": ["ChargingFleetManager", {"benign_queue": {"p_leave": [0.0, 0.03, 0.08][i % 3], "p_abandon": [0.0, 0.02, 0.05][(i // 3) % 3], "p_resend": [0.0, 0.0, 0.3, 0.6][i % 4], "p_topup": 0.15 if s % 4 == 2 else 0.0, "p_send": 0.5 if s % 5 == 2 else 0.08 if spec.get("long_wait") else 0.0, "p_switch": 0.06 if s % 6 == 3 else 0.0}}]}
+        spec, steps = queue_spec(s, long_wait=(i % 8 == 5))
+        ctrl = {"stack": ["ChargingFleetManager", {"benign_queue": {"p_leave": [0.0, 0.03, 0.08][i % 3], "p_abandon": [0.0, 0.02, 0.05][(i // 3) % 3], "p_resend": [0.0, 0.0, 0.3, 0.6][i % 4], "p_topup": 0.15 if s % 4 == 2 else 0.0, "p_send": 0.5 if s % 5 == 2 and not spec.get("long_wait") else 0.08 if spec.get("long_wait") else 0.0, "p_switch": 0.06 if s % 6 == 3 else 0.0}}]}
         if spec.get("long_wait"):
             ctrl["stack"][1]["benign_queue"].update({"p_leave": 0.0, "p_abandon": [0.0, 0.01][i % 2], "p_send": 0.15})
         cases.append(trace_case("C18", i, s, {}, ctrl, steps, ["C18"], spec=spec, opts=({"cosim_ops": {"every": 12, "kinds": ["append_plugs"]}} if i % 4 == 3 else {})))
@@ -116,8 +115,8 @@ main = simple_main(
     build_cases,
     "c18_grants_with_others_waiting",
     {
-        "quick": {"c18_grants": 300, "c18_grants_with_others_waiting": 200, "c18_overtake_opportunities": 300, "c18_tie_opportunities": 20, "c18_abandonments": 20, "c18_grants_to_full_vehicles": 4},
-        "thorough": {"c18_grants": 3500, "c18_grants_with_others_waiting": 2500, "c18_overtake_opportunities": 4000, "c18_tie_opportunities": 300, "c18_abandonments": 300, "c18_grants_to_full_vehicles": 100},
+        "quick": {"c18_grants": 300, "c18_grants_with_others_waiting": 200, "c18_overtake_opportunities": 300, "c18_tie_opportunities": 20, "c18_abandonments": 20, "c18_grants_to_full_vehicles": 4, "c18_overtake_opportunities_after_more_than_a_day_of_waiting": 1, "c18_grants_at_a_station_with_two_queues": 1},
+        "thorough": {"c18_grants": 3500, "c18_grants_with_others_waiting": 2500, "c18_overtake_opportunities": 4000, "c18_tie_opportunities": 300, "c18_abandonments": 300, "c18_grants_to_full_vehicles": 100, "c18_overtake_opportunities_after_more_than_a_day_of_waiting": 4, "c18_grants_at_a_station_with_two_queues": 8},
     },
     "6-12 nearly empty vehicles at staggered distances from a station with 1-2 plugs of one type (same-step arrivals included), the real ChargingFleetManager sends them there; a benign controller makes charging vehicles "
     "leave and queued vehicles abandon, repeats the go-and-charge instruction to waiting vehicles, and (every fourth scenario) sends full vehicles to the busy plug as well. Join step = first step in which the vehicle is seen in that queue (observed, never read from enqueue_time). A grant to a later joiner while an earlier one keeps waiting is a violation. "
